@@ -21,12 +21,19 @@ package state
 //@ func IsNotFoundError
 //@   props C01 C11
 //@   ensures [nonnil] result ==> err != nil
+//@ fn isOwnerConflict(e error) bool
+//@ fn isPhaseConflict(e error) bool
+//@ fn isConflict(e error) bool
 //@ func IsOwnerConflictError
 //@   props C01 C11
+//@   pure
 //@   ensures [nonnil] result ==> err != nil
+//@   ensures [def-class] result == isOwnerConflict(err)
 //@ func IsPhaseConflictError
 //@   props C01 C11
+//@   pure
 //@   ensures [nonnil] result ==> err != nil
+//@   ensures [def-class] result == isPhaseConflict(err)
 //@ func IsUnsupportedError
 //@   props C01 C11
 //@   ensures [nonnil] result ==> err != nil
@@ -37,10 +44,46 @@ package state
 //@   props C01 C11
 //@   requires [opts-nonnil] forall i int :: 0 <= i && i < len(opts) ==> opts[i] != nil
 //@   ensures [nonnil] result ==> err != nil
+//@   ensures [def-class] len(opts) == 0 ==> result == isConflict(err)
 
 //@ func WrapCore
 //@   props C11
 //@   ensures [nonnil] result != nil
 
 // Functional option constructors (WithX / WatchWithX) consist of a single closure literal: inlined.
-//@ inline_matching ^pkg/state\.(With|WatchWith)\w+$
+//@ inline_matching ^pkg/state\.((With|WatchWith)\w+|Default\w+Options)$
+
+// ---------------------------------------------------------------------------
+// C04: conflict-retrying read-modify-write. Ghost state updated by the interface contracts of the
+// wrapped CoreState: okUpdates counts successful Update calls, hardSeen records that some Update
+// returned an owner or phase conflict, lastGetPhase is the phase of the last value read.
+
+//@ ghostvar okUpdates int
+//@ ghostvar hardSeen bool
+//@ ghostvar lastGetPhase resource.Phase
+//@
+//@ iface CoreState.Get
+//@   modifies lastGetPhase
+//@   ensures [get-result] result1 == nil ==> result0 != nil && mdOf(result0) != nil && lastGetPhase == mdOf(result0).phase
+//@ iface CoreState.Update
+//@   modifies okUpdates, hardSeen
+//@   ensures [counts] okUpdates == old(okUpdates) + ite(result == nil, 1, 0)
+//@   ensures [hard] hardSeen == (old(hardSeen) || (result != nil && (isOwnerConflict(result) || isPhaseConflict(result))))
+//@
+//@ func errPhaseConflict
+//@   props C04
+//@   requires r != nil
+//@   ensures [class] result != nil && typeis(result, "ePhaseConflict")
+//@
+//@ func (coreWrapper).UpdateWithConflicts
+//@   props C04
+//@   requires [wrapped] state.CoreState != nil && resourcePointer != nil && f != nil
+//@   requires [opts-nonnil] forall i int :: 0 <= i && i < len(opts) ==> opts[i] != nil
+//@   ensures [error-means-no-write] result1 != nil ==> okUpdates == old(okUpdates)
+//@   ensures [at-most-one-write] okUpdates <= old(okUpdates) + 1
+//@   ensures [hard-conflict-never-retried] hardSeen && !old(hardSeen) ==> result1 != nil
+//@   at DeepCopy #1
+//@     assert [phase-checked-before-any-change] options.ExpectedPhase != nil ==> lastGetPhase == *options.ExpectedPhase
+//@   ensures [result-nonnil] result1 == nil ==> result0 != nil
+//@   loop #2
+//@     invariant [no-write-yet] okUpdates == old(okUpdates) && (hardSeen ==> old(hardSeen)) && state.CoreState != nil && f != nil && resourcePointer != nil
